@@ -28,6 +28,7 @@ Inductive err :=
 | EUnexpected         (* uripost: errors.New("unexpected behavior") *)
 | EPanic              (* index out of range / integer divide by zero *)
 | ENoAmmoText         (* grpc/json: errors.New("no ammo in file"), not the decoders sentinel *)
+| EOpen               (* grpc Provider.Run "failed to open ammo file" / DecodeProvider.Run "data source open failed", see Model/ProviderFrame.v *)
 | EScan               (* grpc/json: errors.Wrap(scanner.Err(), "gPRC Provider scan() err") — bufio.ErrTooLong, see Model/ProviderScan.v *)
 | ELoad (e : err).    (* fmt.Errorf("cant LoadAmmo, err: %w", e) *)
 
